@@ -10,7 +10,7 @@
    `path` = a chase that follows MOVED answers, possibly still in flight; every proxy holds install_ns ns p, which by
    C02_install_of_view is what the coordinator's sender makes it install from the broker's view of that proxy. *)
 From UM Require Import Base.BytesDef Model.Ranges Model.Broker Model.Route
-     Proofs.BrokerPartRanges Proofs.BrokerPartDefs Proofs.RouteProofs Proofs.RouteProofsGlue Proofs.RouteProofsEx.
+     Proofs.BrokerPartRanges Proofs.BrokerPartDefs Proofs.RouteProofs Proofs.RouteProofsDyn Proofs.RouteProofsGlue Proofs.RouteProofsEx.
 
 (* every chase, from every proxy of the cluster, for every slot: at most one redirection for a slot that is not migrating and at most
    two for a migrating one (phases fixed during the chase); it ends with the command executed on the designated node, or parked in
@@ -73,6 +73,36 @@ Check C02_progress : forall ns ph s p,
   route_step ph (install_ns ns p) s <> [].
 Print Assumptions C02_progress.
 
+(* the same when the handshakes make progress DURING the chase: decision k is taken under phs[k], consecutive assignments never go
+   backwards in the list of pairs.  At most three redirections for a migrating slot (reached: C02_dynamic_example), one otherwise;
+   the last decision is correct with respect to the phases it was taken under *)
+Theorem C02_route_dynamic : forall ns s start phs tr,
+  partition_ok ns -> view_wfb ns = true -> s < SLOT_NUM -> In start (proxies_of ns) ->
+  Forall (fun ph => phases_ok ph ns = true) phs -> chain phs ->
+  dpath (install_ns ns) s phs start tr ->
+  (redirections tr <= if migrating_slot ns s then 3 else 1)%nat
+  /\ exists ph p o, last_ph phs = Some ph /\ last_step tr = Some (p, o) /\ In p (proxies_of ns) /\
+       match o with
+       | Exec n => designated ph ns s = Some n
+       | Queued n => node_blocked ph (install_ns ns p) n = true /\ In n (allowed_nodes ns s)
+       | Moved q => In q (proxies_of ns)
+       | Err _ => False
+       end.
+Proof. exact route_dynamic. Qed.
+Check C02_route_dynamic : forall ns s start phs tr,
+  partition_ok ns -> view_wfb ns = true -> s < SLOT_NUM -> In start (proxies_of ns) ->
+  Forall (fun ph => phases_ok ph ns = true) phs -> chain phs ->
+  dpath (install_ns ns) s phs start tr ->
+  (redirections tr <= if migrating_slot ns s then 3 else 1)%nat
+  /\ exists ph p o, last_ph phs = Some ph /\ last_step tr = Some (p, o) /\ In p (proxies_of ns) /\
+       match o with
+       | Exec n => designated ph ns s = Some n
+       | Queued n => node_blocked ph (install_ns ns p) n = true /\ In n (allowed_nodes ns s)
+       | Moved q => In q (proxies_of ns)
+       | Err _ => False
+       end.
+Print Assumptions C02_route_dynamic.
+
 (* the tables of the theorems above are the ones a proxy really gets: its own broker view, masters only, both HashMaps *)
 Theorem C02_install_of_view : forall lim st a v name vc,
   view_proxy lim st a = Some (Some v) -> vp_cluster v = Some name ->
@@ -113,3 +143,10 @@ Example C02_split_outside_consistent_pairs :
   phases_ok ph ns_ex = false /\
   route_step ph (install_ns ns_ex 2) 5000 = [Exec 4] /\ route_step ph (install_ns ns_ex 8) 5000 = [Exec 16].
 Proof. exact ex_split_outside_consistent_pairs. Qed.
+Example C02_dynamic_example :
+  dpath (install_ns ns_ex) 5000 [ph_pc; ph_pc; ph_scan; ph_scan] 6 [(6, Moved 8); (8, Moved 2); (2, Moved 8); (8, Exec 16)]
+  /\ chain [ph_pc; ph_pc; ph_scan; ph_scan]
+  /\ Forall (fun ph => phases_ok ph ns_ex = true) [ph_pc; ph_pc; ph_scan; ph_scan]
+  /\ redirections [(6, Moved 8); (8, Moved 2); (2, Moved 8); (8, Exec 16)] = 3%nat
+  /\ designated ph_scan ns_ex 5000 = Some 16.
+Proof. exact ex_dynamic_three. Qed.
